@@ -102,7 +102,17 @@ func (m *Mutex) Unlock() {
 	m.mu.Unlock()
 }
 
-func (m *Mutex) TryLock() bool { return m.mu.TryLock() }
+func (m *Mutex) TryLock() bool {
+	if t := vsched.Cur(); t >= 0 {
+		if vsched.Point(t, vsched.OpTryLock, uintptr(unsafe.Pointer(m)), 0) != 2 {
+			return false
+		}
+		m.mu.Lock()
+		return true
+	}
+	vsched.NoteForeign()
+	return m.mu.TryLock()
+}
 
 type RWMutex struct{ mu sync.RWMutex }
 
@@ -136,6 +146,30 @@ func (m *RWMutex) RUnlock() {
 		vsched.Point(t, vsched.OpRUnlock, uintptr(unsafe.Pointer(m)), 0)
 	}
 	m.mu.RUnlock()
+}
+
+func (m *RWMutex) TryLock() bool {
+	if t := vsched.Cur(); t >= 0 {
+		if vsched.Point(t, vsched.OpTryLock, uintptr(unsafe.Pointer(m)), 0) != 2 {
+			return false
+		}
+		m.mu.Lock()
+		return true
+	}
+	vsched.NoteForeign()
+	return m.mu.TryLock()
+}
+
+func (m *RWMutex) TryRLock() bool {
+	if t := vsched.Cur(); t >= 0 {
+		if vsched.Point(t, vsched.OpTryRLock, uintptr(unsafe.Pointer(m)), 0) != 2 {
+			return false
+		}
+		m.mu.RLock()
+		return true
+	}
+	vsched.NoteForeign()
+	return m.mu.TryRLock()
 }
 
 func (m *RWMutex) RLocker() Locker { return (*rlocker)(m) }
